@@ -18,7 +18,11 @@ RULE = ('generated error files: random bodies (n in 1..40, 0..30 errors), header
         'and extra attributes) up to and past EOF; outcome sequence compared exactly. The repo fixture files are '
         'replayed too. Record LENGTHS as a class relative to the asked code: files holding one record of every length '
         '0..4n+2 bits (n in 1..13; 2n-1, 2n+1 and the odd lengths included) asked with the fixed qubit count n, or '
-        'with the qubit counts around len/2 - served iff the length is exactly 2n. HISTORIES over files with REPEATED '
+        'with the qubit counts around len/2 - served iff the length is exactly 2n. DECLARED length against RECORDED data '
+        'as a class (truncated / hand-edited records): the declared bit count L (mostly 2n of the asked code, also '
+        '2n-2..2n+9, 8b, 0) and the number b of hex bytes (0..ceil(L/8)+2; random / all-ones / zero / sparse contents, '
+        'non-zero padding bits, upper-case hex) vary independently; such a record records min(L, 8b) bits and is served '
+        'iff that is exactly 2n - never padded up to the declared length. HISTORIES over files with REPEATED '
         'identical records (pool of 1..3 errors, identity included), the same file (or a byte-identical second file) '
         'open in 1..3 models with their own start offsets, calls interleaved; between the calls the caller modifies '
         'served errors in place (zero / flip / xor with an earlier one / fill), calls paulitools.unpack itself on a '
@@ -232,6 +236,47 @@ def gen_length_file(rng, n):
     calls.append(('g', n, p))      # past the end
     lines = decorate(rng, [json.dumps(header)] + [json.dumps(b) for b in body])
     return lines, {'n': n, 'm': len(body), 'p': p, 'kind': 'wellformed', 'cls': 'lengths:' + mode, 'header': header,
+                   'calls': calls, 'start': 0}
+
+
+def gen_declared_file(rng, n):
+    """DECLARED length against RECORDED data as a class (truncated / hand-edited / foreign-writer records): the bit
+    count L a record declares and the number of bytes b its hex holds vary independently - b in 0..ceil(L/8)+2, so the
+    data holds fewer bits than declared (8b < L: whole bytes missing, down to no data at all), exactly the bytes needed
+    (with zero or NON-zero padding bits after bit L) or more bytes than needed; L is 2n for most records (so that the
+    declared length agrees with the asked code and only the recorded data decides) and 2n-2..2n+9 / 8b / 0 for the
+    others.  What such a record records is the first L of its 8b bits - min(L, 8b) bits: served iff that is exactly 2n
+    bits, never padded up to the declared length."""
+    p = rng.choice([0.1, 0.25, 0.5])
+    header = {'probability': p, 'label': 'declared'}
+    need = (2 * n + 7) // 8
+    recs, calls = [], []
+    combos = [(2 * n, b) for b in range(0, need + 3)] * 2
+    for _ in range(rng.randint(2, 6)):
+        b = rng.randint(0, need + 2)
+        combos.append((rng.choice([2 * n - 2, 2 * n - 1, 2 * n + 1, 2 * n + 2, 2 * n + 8, 2 * n + 9, 8 * b, 8 * b + 1,
+                                   0, 16 * n]), b))
+    combos = [(max(L, 0), b) for L, b in combos]
+    rng.shuffle(combos)
+    fill = rng.choice(['random', 'random', 'ones', 'zeros', 'sparse'])
+    for L, b in combos:
+        if fill == 'random':
+            by = bytes(rng.randrange(256) for _ in range(b))
+        elif fill == 'ones':
+            by = b'\xff' * b
+        elif fill == 'zeros':
+            by = bytes(b)
+        else:
+            by = bytes(rng.choice([0, 0, 1, 0x80, 0x10, 0x41]) for _ in range(b))
+        h = by.hex()
+        if rng.random() < 0.15:
+            h = h.upper()
+        recs.append([h, L])
+        have = min(L, 8 * b)        # bits the record really records
+        calls.append(('g', rng.choice([n, n, n, have // 2, (L + 1) // 2]), p))
+    calls.append(('g', n, p))      # past the end
+    lines = decorate(rng, [json.dumps(header)] + [json.dumps(r) for r in recs])
+    return lines, {'n': n, 'm': len(recs), 'p': p, 'kind': 'wellformed', 'cls': 'declared:' + fill, 'header': header,
                    'calls': calls, 'start': 0}
 
 
@@ -688,6 +733,10 @@ def run(ctx):
         for n in ([1, 2, 3, 4, 5, 7, 8, 9, 12, 13] if ctx.quick() else list(range(1, 18)) + [20, 25, 40]):
             for _ in range(ctx.scale(2, 6)):
                 cases.append(gen_length_file(rng, n))
+        # declared length against recorded data: the hex of a record holds fewer / exactly / more bits than it declares
+        for n in ([1, 2, 3, 4, 5, 7, 8, 9, 12, 13] if ctx.quick() else list(range(1, 18)) + [20, 25, 40]):
+            for _ in range(ctx.scale(3, 8)):
+                cases.append(gen_declared_file(rng, n))
         # header STRING contents as a class; requested PROBABILITY values as a class
         for _ in range(ctx.scale(250, 3000)):
             cases.append(gen_string_file(rng))
@@ -760,6 +809,16 @@ def run(ctx):
                 ctx.count('class', info['cls'].split(':')[0])
                 if info['cls'].startswith('lengths'):
                     ctx.count('class', info['cls']); ctx.count('lengths-n', n)
+                if info['cls'].startswith('declared'):
+                    ctx.count('class', info['cls']); ctx.count('declared-n', n)
+                    for l in lines:
+                        t = tok_of(l)
+                        if t.startswith('E') and not l.strip().startswith('//'):
+                            r = json.loads(l)
+                            have = 4 * len(r[0])
+                            ctx.count('declared-data', 'no data' if have == 0 and r[1] else 'fewer bits than declared'
+                                      if have < r[1] else 'whole bytes beyond declared' if have >= r[1] + 8 else
+                                      'exact bytes')
                 if info['cls'] in ('header-strings', 'requested-probability'):
                     class_monitor(ctx, lines, info, start, calls, impl)
                     continue
